@@ -9,13 +9,21 @@ use vcommon::report::*;
 use vcommon::v::{Got, Ref};
 
 fn suffixes(b: &[u8]) -> Vec<Vec<u8>> {
-    vec![
+    let mut v = vec![
         vec![0x00],
         vec![0xff, 0xff, 0xff],
         b.to_vec(),
         vec![0x16, 0x03, 0x03, 0x00, 0x04, 0x00, 0x00, 0x00, 0x00],
         vec![0x00, 0x17, 0x00, 0x00],
-    ]
+    ];
+    // the inside of the structure repeated after it: its inner elements (messages of a record,
+    // entries of a list, the content of an extension) then look like valid continuation data
+    for k in [1usize, 2, 3, 4, 5, 13] {
+        if b.len() > k {
+            v.push(b[k..].to_vec());
+        }
+    }
+    v
 }
 
 /// L1 / L2 on one (parser, input); `g` = f(b)
@@ -164,7 +172,7 @@ fn main() {
     cov.insert("defragmenter_states".into(), json!(hist_states));
     cov.insert("defragmenter_transitions".into(), json!(hist_trans));
     cov.insert("rule".into(), json!(format!(
-        "for each of {} self-delimiting parsers: every catalogue encoding of its family with every combination of <= {} deviations and every string of bounded length over a positional alphabet; on each input b: (L1) if f(b)=Ok(v,rem): rem is pointer-and-content a suffix of b, every non-empty slice reachable from v lies inside the consumed bytes, f(b[..consumed]) returns the same value, and f(b||x) returns the same value and consumption for 5 suffixes x (a zero byte, ff ff ff, a copy of b, a valid HelloRequest record, a valid extension); (L2) if f(b) is a non-Incomplete error, f(b||x) is still an error; (L3) defragmenter: the C07 exploration with region-relative slice positions. Non-trivial: not cut inside a fixed header",
+        "for each of {} self-delimiting parsers: every catalogue encoding of its family with every combination of <= {} deviations and every string of bounded length over a positional alphabet; on each input b: (L1) if f(b)=Ok(v,rem): rem is pointer-and-content a suffix of b, every non-empty slice reachable from v lies inside the consumed bytes, f(b[..consumed]) returns the same value, and f(b||x) returns the same value and consumption for up to 11 suffixes x (a zero byte, ff ff ff, a copy of b, a valid HelloRequest record, a valid extension, and b without its first 1/2/3/4/5/13 bytes, i.e. the structure's own inner elements repeated after it); (L2) if f(b) is a non-Incomplete error, f(b||x) is still an error; (L3) defragmenter: the C07 exploration with region-relative slice positions. Non-trivial: not cut inside a fixed header",
         all.len(), d)));
     let code = run.finish(
         &sink,
